@@ -186,6 +186,18 @@ func (x *Exec) verifyFunc(key string) (err error) {
 	x.alloc0 = a0
 	fr := x.newFrame(fn, con, 0)
 	fr.allocIn = a0
+	if con != nil {
+		// an invariant for a loop the compiled function does not have would be ignored silently
+		have := map[int]bool{}
+		for _, li := range fr.loops {
+			have[li.ord] = true
+		}
+		for ord := range con.Invariants {
+			if !have[ord] && len(con.Invariants[ord]) > 0 {
+				return fmt.Errorf("%s: invariant for loop %d, but the function has %d loop(s) (loops are numbered in source order among those that survive compilation)", key, ord, len(fr.loops))
+			}
+		}
+	}
 	var args []Val
 	for _, p := range fn.Params {
 		name := "|p_" + p.Name() + "|"
@@ -381,6 +393,13 @@ func (x *Exec) envFor(fr *Frame, st *State, results []Val, where string) *Env {
 	if results != nil {
 		sig := fr.fn.Signature.Results()
 		for i, r := range results {
+			if r.Term == "" && r.Loc != nil && r.Tup == nil {
+				// a pointer into a slice element / struct field is returned: contracts see a non-nil pointer to a copy
+				if _, isPtr := r.T.Underlying().(*types.Pointer); isPtr {
+					r = x.materialize(st, r)
+					results[i] = r
+				}
+			}
 			name := sig.At(i).Name()
 			if fr.con != nil && i < len(fr.con.ResNames) {
 				name = fr.con.ResNames[i]
